@@ -2,11 +2,13 @@ package verifh
 
 import (
 	"bufio"
+	"bytes"
 	"encoding/binary"
 	"encoding/json"
 	"fmt"
 	"os"
 	"path/filepath"
+	"strings"
 	"testing"
 	"time"
 
@@ -273,4 +275,138 @@ func TestC20_Witnesses(t *testing.T) {
 		}
 	}
 	c20Wit.rec().Exhaustive()
+}
+
+// ---------------------------------------------------------------------------
+// Colliding secret pairs (witness/collisions.jsonl, from tools/witness/collide): two different valid secrets of equal
+// length whose TEXTS collide under a cheap 32-bit hash (FNV, CRC-32, Adler, djb2, sdbm, Java's 31-hash, Murmur3, byte
+// sums, equal first / last 8 characters). Anything keyed by such a hash of the secret instead of the secret — a cache of
+// decoded keys, of prepared MACs, a validation memo — confuses the two. Protocol: use A through every entry point, then B
+// must still be B everywhere.
+
+type collision struct {
+	Hash   string `json:"hash"`
+	KeyLen int    `json:"keylen"`
+	A      string `json:"a"`
+	B      string `json:"b"`
+}
+
+func loadCollisions() []collision {
+	root := os.Getenv("VERIF_ROOT")
+	if root == "" {
+		root = ".."
+	}
+	f, err := os.Open(filepath.Join(root, "witness", "collisions.jsonl"))
+	if err != nil {
+		fmt.Println("INFRA: collision table:", err)
+		os.Exit(3)
+	}
+	defer f.Close()
+	var out []collision
+	sc := bufio.NewScanner(f)
+	for sc.Scan() {
+		var c collision
+		if json.Unmarshal(sc.Bytes(), &c) == nil && c.A != "" {
+			out = append(out, c)
+		}
+	}
+	return out
+}
+
+type c07PairCase struct {
+	C     collision `json:"pair"`
+	Swap  bool      `json:"swap"`  // use B first, then A
+	Lower bool      `json:"lower"` // both texts in lower case
+	Algo  int       `json:"algo"`
+}
+
+var c07Pair = newPart("C07", "collision-pairs",
+	"complete: every stored pair of different valid secrets whose texts collide under a cheap 32-bit hash (17 functions x key lengths 10, 20, 32, 64) x both orders x upper / lower case x three hashes; protocol: the first secret is used through DecodeSecret and all six generation / validation entry points, then the second one must decode to its own bytes, generate its own RFC codes, have them accepted and the first secret's codes rejected (HOTP, TOTP, OCRA); oracle: the independent references; every case distinct and non-trivial",
+	func(c c07PairCase) verdict {
+		a, b := c.C.A, c.C.B
+		if c.Swap {
+			a, b = b, a
+		}
+		ka, ok1 := ref.B32DecodeLoose(a)
+		kb, ok2 := ref.B32DecodeLoose(b)
+		if !ok1 || !ok2 || a == b || len(a) != len(b) {
+			fmt.Println("INFRA: bad collision pair", c.C)
+			os.Exit(3)
+		}
+		if c.Lower {
+			a, b = strings.ToLower(a), strings.ToLower(b)
+		}
+		labels := []string{"hash=" + c.C.Hash}
+		p := &otp.Param{Digits: 8, Algorithm: otp.Algorithm(c.Algo), Period: 30, Skew: 1}
+		tm := time.Unix(1_700_000_000, 0)
+		cfg := ref.OCRACfg{Raw: "OCRA-1:HOTP-SHA1-6:QN08", Hash: 0, Digits: 6, Q: true, QFormat: 1, SessionNN: -1}
+		su, _ := otp.NewRawSuite(cfg.Raw)
+		q := []byte("12345678")
+		codeHA, codeHB := ref.MustHOTP(ka, 7, 8, c.Algo), ref.MustHOTP(kb, 7, 8, c.Algo)
+		codeTA, codeTB := ref.MustHOTP(ka, 1_700_000_000/30, 8, c.Algo), ref.MustHOTP(kb, 1_700_000_000/30, 8, c.Algo)
+		codeOA, _ := ref.OCRA(ka, cfg, ref.OCRAIn{Q: q})
+		codeOB, _ := ref.OCRA(kb, cfg, ref.OCRAIn{Q: q})
+		// first secret through everything
+		otp.DecodeSecret(a)
+		otp.GenerateHOTP(a, 7, p)
+		otp.ValidateHOTP(a, codeHA, 7, p)
+		otp.GenerateTOTP(a, tm, p)
+		otp.ValidateTOTP(a, codeTA, tm, p)
+		otp.GenerateOCRA(a, su, otp.OCRAInput{Challenge: q})
+		otp.ValidateOCRA(a, codeOA, su, otp.OCRAInput{Challenge: q})
+		// the second secret must be itself
+		if got, err := otp.DecodeSecret(b); err != nil || !bytes.Equal(got, kb) {
+			return bad(true, labels, "after %q was used, DecodeSecret(%q) = %x, %v; want %x (the two texts collide under %s)", a, b, got, err, kb, c.C.Hash)
+		}
+		if got, err := otp.GenerateHOTP(b, 7, p); err != nil || got != codeHB {
+			return bad(true, labels, "after %q was used, GenerateHOTP(%q) = %q, %v; want %q", a, b, got, err, codeHB)
+		}
+		if okk, err := otp.ValidateHOTP(b, codeHB, 7, p); !okk || err != nil {
+			return bad(true, labels, "after %q was used, ValidateHOTP(%q) refuses its own code %s: (%v, %v)", a, b, codeHB, okk, err)
+		}
+		if okk, _ := otp.ValidateHOTP(b, codeHA, 7, p); okk && codeHA != codeHB {
+			return bad(true, labels, "after %q was used, ValidateHOTP(%q) accepts the OTHER secret's code %s", a, b, codeHA)
+		}
+		if got, err := otp.GenerateTOTP(b, tm, p); err != nil || got != codeTB {
+			return bad(true, labels, "after %q was used, GenerateTOTP(%q) = %q, %v; want %q", a, b, got, err, codeTB)
+		}
+		if okk, err := otp.ValidateTOTP(b, codeTB, tm, p); !okk || err != nil {
+			return bad(true, labels, "after %q was used, ValidateTOTP(%q) refuses its own code %s: (%v, %v)", a, b, codeTB, okk, err)
+		}
+		if okk, _ := otp.ValidateTOTP(b, codeTA, tm, &otp.Param{Digits: 8, Algorithm: otp.Algorithm(c.Algo), Period: 30}); okk && codeTA != codeTB {
+			return bad(true, labels, "after %q was used, ValidateTOTP(%q) accepts the OTHER secret's code %s", a, b, codeTA)
+		}
+		if got, err := otp.GenerateOCRA(b, su, otp.OCRAInput{Challenge: q}); err != nil || got != codeOB {
+			return bad(true, labels, "after %q was used, GenerateOCRA(%q) = %q, %v; want %q", a, b, got, err, codeOB)
+		}
+		if okk, err := otp.ValidateOCRA(b, codeOB, su, otp.OCRAInput{Challenge: q}); !okk || err != nil {
+			return bad(true, labels, "after %q was used, ValidateOCRA(%q) refuses its own code %s: (%v, %v)", a, b, codeOB, okk, err)
+		}
+		if okk, _ := otp.ValidateOCRA(b, codeOA, su, otp.OCRAInput{Challenge: q}); okk && codeOA != codeOB {
+			return bad(true, labels, "after %q was used, ValidateOCRA(%q) accepts the OTHER secret's code %s", a, b, codeOA)
+		}
+		return ok(true, labels...)
+	})
+
+func TestC07_CollisionPairs(t *testing.T) {
+	defer c07Pair.rec().Flush()
+	cs := loadCollisions()
+	if len(cs) < 40 {
+		fmt.Println("INFRA: only", len(cs), "collision pairs")
+		os.Exit(3)
+	}
+	i := 0
+	for _, c := range cs {
+		for _, swap := range []bool{false, true} {
+			for _, lower := range []bool{false, true} {
+				for algo := 0; algo < 3; algo++ {
+					i++
+					if ev.Mine(i) {
+						c07Pair.each(t, c07PairCase{C: c, Swap: swap, Lower: lower, Algo: algo})
+					}
+				}
+			}
+		}
+	}
+	c07Pair.rec().Exhaustive()
 }
